@@ -21,7 +21,7 @@
    two main statements again, now with no part of the position exempt. *)
 From Coq Require Import NArith ZArith List Bool.
 Require Import Board Move GameOver Alloc AllocFacts AllocFacts2 AllocFacts3.
-Require Import Alloc2 Alloc2Facts3 Alloc2Facts5 Alloc2Facts6.
+Require Import Alloc2 Alloc2Facts3 Alloc2Facts5 Alloc2Facts6 Alloc2Facts7.
 Import ListNotations.
 
 (* Storage invariant, in every store reachable by admissible operations: every object's WhiteGroups header is a valid
@@ -146,6 +146,17 @@ Theorem C09_value_semantics2 : forall hsq ops, ops_ok2 hsq ops = true ->
   forall h v, pval (pure_run hsq ops) h = Some v -> observe2 (run2 hsq ops) h = Some (observe_pure v).
 Proof. exact value_semantics2. Qed.
 Print Assumptions C09_value_semantics2.
+
+(* A clone c of a live handle h, followed by any admissible operations: c keeps showing -- through its own headers -- the
+   observables of the value h had when cloned as long as c is not itself handed over as a buffer, and so does h. *)
+Theorem C09_clone_identical2 : forall hsq ops h ops', ops_ok2 hsq (ops ++ OClone h :: ops') = true ->
+  exists v, pval (pure_run hsq ops) h = Some v /\
+    let c := length (pure_run hsq ops) in
+    let st := run2 hsq (ops ++ OClone h :: ops') in
+    (Forall (never_buf c) ops' -> observe2 st c = Some (observe_pure v)) /\
+    (Forall (never_buf h) ops' -> observe2 st h = Some (observe_pure v)).
+Proof. exact clone_identical2. Qed.
+Print Assumptions C09_clone_identical2.
 
 (* The in-place transcription of MovePreallocated against the value-level move (Alloc.amv = Move.move_prealloc, or Pass),
    for ANY heap: if the destination's Height/Stacks headers nhh/nsh are valid slices of two different arrays that hold a
